@@ -344,6 +344,7 @@ extern "C" {
 /* 26 to 31 are public version flags, defined in matrixSslApiVer.h) */
 # define SSL_FLAGS_INTERCEPTOR   (1U << 26)
 # define SSL_FLAGS_EAP_FAST      (1U << 27)
+# define SSL_FLAGS_READ_CCS      (1U << 28) /* ChangeCipherSpec received, Finished not yet */
 
 /* Internal flags for ssl_t.hwflags */
 # define SSL_HWFLAGS_HW                  (1 << 0) /* Use HW for decode/encode */
